@@ -60,8 +60,9 @@ def build(rng, idx):
     for st in prog:
         stmts.append(st)
     # sprinkle frame templates
-    for _ in range(rng.randrange(2, 5)):
-        t = rng.choice(FRAME_TEMPLATES).format(n=rng.randrange(1000, 9999))
+    ns = rng.sample(range(1000, 9999), 5)       # distinct per program: two templates must not define the same names
+    for ti in range(rng.randrange(2, 5)):
+        t = rng.choice(FRAME_TEMPLATES).format(n=ns[ti])
         pos = rng.randrange(0, len(stmts) + 1)
         for j, line in enumerate(split_top(t)):
             stmts.insert(pos + j, ("raw", line))
